@@ -798,6 +798,14 @@ class Interp:
             inner = self.truth(S(t[1]), st)
             if inner is True or inner is False:
                 return not inner
+        if isinstance(t, tuple) and t and t[0] == 'bool':
+            # a conjunction with a constant falsy member is falsy, a disjunction with a constant truthy member is truthy
+            for x in t[2]:
+                if not isinstance(x, tuple):
+                    if t[1] == 'and' and not x:
+                        return False
+                    if t[1] == 'or' and x:
+                        return True
         return t
 
     def eval(self, node, st):
@@ -1168,6 +1176,8 @@ class Interp:
         if mod == 'int' and name == 'to_bytes' and len(args) >= 2:
             order = args[2] if len(args) > 2 else kwargs.get('byteorder', 'big')
             return S(('int2bytes', term(args[0]), term(args[1]), term(order)), 'bytes')
+        if mod == 'collections' and name == 'OrderedDict' and not args:
+            return dict(kwargs)
         if mod == 'hashlib' and name in ('sha256', 'sha1', 'sha512', 'new', 'ripemd160'):
             return S(('call', 'hashlib.' + name, tuple(term(a) for a in args), _kw(kwargs)))
         return NotImplemented
